@@ -2,6 +2,7 @@
 import theta_rules as T
 import tuple_rules as U
 import chains
+import generic_lints
 
 
 def run(facts, tier):
@@ -14,6 +15,7 @@ def run(facts, tier):
         ("early stops", T.early_breaks, 5, "ordered-only shortcuts guarded by the right input"),
         ("theta writes", T.theta_writes, 5, "theta monotone"),
         ("duplicates/emptiness", T.emptiness_and_duplicates, 3, "insert only after a failed find (Theta and Tuple update paths)"),
+        ("duplicate operands", lambda fa: generic_lints.duplicate_conjuncts(fa, ('theta/', 'tuple/')), 2, "no logical chain tests the same operand twice (copy-paste of the wrong peer)"),
     ):
         o = f(facts)
         obs += o
